@@ -1,45 +1,51 @@
 //! Scratch probe (not a registered check).
-use jrv::memsrv::*;
 use jrv::runner::*;
-use jsonrpsee_server::{ConnectionGuard, RpcModule, ServerConfig};
+use jsonrpsee_server::{RpcModule, ServerConfig};
 use std::time::Duration;
-use tokio::io::{AsyncReadExt, AsyncWriteExt};
+use tokio::io::AsyncWriteExt;
+
+const UPGRADE_REQ: &str = "GET / HTTP/1.1\r\nHost: localhost\r\nUpgrade: websocket\r\nConnection: Upgrade\r\nSec-WebSocket-Key: dGhlIHNhbXBsZSBub25jZQ==\r\nSec-WebSocket-Version: 13\r\n\r\n";
 
 fn main() {
-	let r = block_on_virtual(async {
-		let mut m = RpcModule::new(());
-		m.register_method("probe", |_, _, ext| {
-			let g = ext.get::<ConnectionGuard>().unwrap();
-			(g.max_connections() - g.available_connections()) as u64
-		})
-		.unwrap();
-		let srv = MemServer::new(ServerConfig::builder().max_connections(3).build(), m);
-		let mut res = Vec::new();
-		for variant in 0..3 {
-			let (mut io, jh) = srv.raw_conn();
-			let req = "GET / HTTP/1.1\r\nHost: localhost\r\nUpgrade: websocket\r\nConnection: Upgrade\r\nSec-WebSocket-Key: dGhlIHNhbXBsZSBub25jZQ==\r\nSec-WebSocket-Version: 13\r\n\r\n";
-			io.write_all(req.as_bytes()).await.unwrap();
-			match variant {
-				0 => drop(io),
-				1 => {
-					let _ = io.shutdown().await;
-					drop(io)
+	jrv::tcp::install_branch_counter();
+	block_on_stress_io(4, async {
+		let m = RpcModule::new(());
+		let server = jsonrpsee_server::Server::builder().set_config(ServerConfig::builder().max_connections(100).build()).build("127.0.0.1:0").await.unwrap();
+		let addr = server.local_addr().unwrap();
+		let _h = server.start(m);
+		for variant in 0..8u32 {
+			let b0 = jrv::tcp::branches();
+			for _ in 0..300 {
+				let mut s = jrv::tcp::connect(addr).await.unwrap();
+				match variant {
+					0 => { let _ = s.write_all(UPGRADE_REQ.as_bytes()).await; jrv::tcp::reset(s); }
+					1..=5 => {
+						let _ = s.write_all(UPGRADE_REQ.as_bytes()).await;
+						let t = std::time::Instant::now();
+						let d = Duration::from_micros([0, 5, 15, 30, 60, 120][variant as usize]);
+						while t.elapsed() < d { std::hint::spin_loop(); }
+						jrv::tcp::reset(s);
+					}
+					6 => {
+						// request in two writes: the last byte and the reset back to back
+						let (a, b) = UPGRADE_REQ.as_bytes().split_at(UPGRADE_REQ.len() - 1);
+						let _ = s.write_all(a).await;
+						tokio::time::sleep(Duration::from_millis(1)).await;
+						let _ = s.write_all(b).await;
+						jrv::tcp::reset(s);
+					}
+					_ => {
+						// shutdown(write) first, then reset shortly after
+						let _ = s.write_all(UPGRADE_REQ.as_bytes()).await;
+						let _ = s.shutdown().await;
+						jrv::tcp::reset(s);
+					}
 				}
-				_ => {
-					tokio::time::sleep(Duration::from_millis(2)).await;
-					let mut buf = [0u8; 16];
-					let n = io.read(&mut buf).await.unwrap_or(0);
-					res.push(format!("read {n} bytes: {:?}", String::from_utf8_lossy(&buf[..n])));
-					drop(io)
-				}
+				tokio::time::sleep(Duration::from_micros(300)).await;
 			}
 			tokio::time::sleep(Duration::from_millis(100)).await;
-			let h = srv.http_post(br#"{"jsonrpc":"2.0","id":1,"method":"probe"}"#.to_vec()).await;
-			res.push(format!("variant {variant}: conn task finished={} probe={}", jh.is_finished(), h.text()));
+			let b = jrv::tcp::branches();
+			println!("variant {variant}: upgrade_failed {} serve_failed {} accepted {}", b.upgrade_failed - b0.upgrade_failed, b.serve_connection_failed - b0.serve_connection_failed, b.accepted - b0.accepted);
 		}
-		res
 	});
-	for l in r {
-		println!("{l}");
-	}
 }
